@@ -1,5 +1,6 @@
 """C06 — persisted event logs are faithful: storage, tree and order agree.
-Op sequences over three co-resident folder logs (two in one account, one in another), on the
+Op sequences over four co-resident logs (two folder logs in one account, one in another, and the first
+account's ACCOUNT log: versioned file header on the file system, another table in the database), on the
 file-system and on the SQLite backend, with deliberately byte-identical events within and
 across logs.  After every op every log is observed (tree, forward and reverse record stream,
 tree of a freshly re-opened instance)."""
@@ -52,9 +53,9 @@ def gen_recs(rng, tnext, n=None, alphabet=ALPHABET):
 
 def gen_ops(rng, nops, refusal_bias=False):
     ops, t = [], [rng.randrange(50)]
-    lens = [0, 0, 0]
+    lens = [0, 0, 0, 0]
     for _ in range(nops):
-        l = rng.choice([0, 0, 0, 1, 1, 2])
+        l = rng.choice([0, 0, 0, 1, 1, 2, 3, 3])      # 3 = the account log (versioned file header / another table)
         kinds = ["ar", "ar", "ar", "pu", "pc", "pc", "rw", "rw", "cl", "ra", "ro"]
         if refusal_bias:
             kinds = ["ar", "ar", "pc", "pc", "pc", "rw", "ra", "ra", "ra", "ro", "pu"]
@@ -63,7 +64,7 @@ def gen_ops(rng, nops, refusal_bias=False):
             recs = gen_recs(rng, t)
             ops.append("%s:%d:%s" % (kind, l, recs)); lens[l] += recs.count("@")
         elif kind == "pc":
-            proof = rng.choice(["head", "head", "prev", "other%d" % rng.choice([x for x in range(3) if x != l]),
+            proof = rng.choice(["head", "head", "prev", "other%d" % rng.choice([x for x in range(4) if x != l]),
                                 "seq" + ";".join(str(rng.choice(ALPHABET)) for _ in range(rng.choice([1, 2, 3])))])
             ops.append("pc:%d:%s:%s" % (l, proof, gen_recs(rng, t, rng.choice([0, 1, 2]))))
         elif kind == "rw":
@@ -124,10 +125,10 @@ def oracle(case, obs, want_c07=False):
         d = {"oracle": oracle_name, "backend": be, "op": op.split(":")[0], "step": step}
         d.update(kw); fails.append(d)
 
-    prevseq = {0: None, 1: None, 2: None}      # sequence the 'prev' proof was taken from
+    prevseq = {0: None, 1: None, 2: None, 3: None}      # sequence the 'prev' proof was taken from
     for st in range(0, len(ops) + 1):
         cur = steps.get(st)
-        if cur is None or len(cur["logs"]) != 3:
+        if cur is None or len(cur["logs"]) != 4:
             fail("no_observation", st, ops[st - 1] if st else "init", detail="missing observation at step %d" % st)
             break
         op = ops[st - 1] if st else "init"
@@ -152,7 +153,7 @@ def oracle(case, obs, want_c07=False):
         target = int(parts[1]) if len(parts) > 1 and parts[0] != "ro" else None
         res = cur["res"] or ""
         # isolation: logs not addressed by the op are unchanged
-        for i in range(3):
+        for i in range(4):
             if i != target and cur["logs"][i]["fwd"] != prv["logs"][i]["fwd"]:
                 fail("isolation", st, op, log=i, detail="op on log %s changed log %d: %d -> %d records" % (target, i, len(prv["logs"][i]["fwd"]), len(cur["logs"][i]["fwd"])))
         if target is None:
